@@ -18,8 +18,11 @@ def judge (fam payload impl : String) : Verdict :=
   | "http2.conv" => Http.Driver.judgeH2 payload impl
   | "http2.raw" => Http.Driver.judgeH2Raw payload impl
   | "http.conv" => Http.Driver.judgeConv payload impl
+  | "http.split" => Http.Driver.judgeSplit payload impl
+  | "http.entry" => Http.Driver.judgeEntry payload impl
   | "kafka.conv" => Kafka.Driver.judgeConv payload impl
   | "kafka.raw" => Kafka.Driver.judgeRaw payload impl
+  | "kafka.split" => Kafka.Driver.judgeSplit payload impl
   | "amqp.conv" => Amqp.Driver.judgeConv payload impl
   | "amqp.raw" => Amqp.Driver.judgeRaw payload impl
   | "amqp.split" => Amqp.Driver.judgeRaw payload impl (splitMode := true)
